@@ -551,7 +551,7 @@ func (rn *run) buildRequest() (*http.Request, *scriptBody, []byte) {
 		hdr.Del("Connect-Protocol-Version")
 		method = http.MethodPost
 		query = url.Values{"connect": {"v1"}}
-	case "unknownpath", "unknownpath-handler":
+	case "unknownpath", "unknownpath-handler", "unknownpath-handler-http1":
 		if cl.Form == "rest" {
 			path = "/v9/nothing/here"
 		} else {
@@ -562,7 +562,7 @@ func (rn *run) buildRequest() (*http.Request, *scriptBody, []byte) {
 	case "rest405":
 		method = http.MethodDelete
 		path = "/v1/things"
-	case "rpc-get-notnse":
+	case "rpc-get-notnse", "rpc-get-idem":
 		method = http.MethodGet
 		if cl.Form == "connect_post" {
 			hdr.Set("Content-Type", "application/"+cl.Codec)
